@@ -82,7 +82,7 @@ func (r *sreg) expected(T int) int {
 }
 
 func (r *sreg) fire() {
-	now := time.Now()
+	now := wallNow()
 	k := r.count.Add(1) - 1
 	if r.cron {
 		ms := now.UnixMilli() % 1000
@@ -102,6 +102,7 @@ type schedRunner struct {
 	t0       time.Time
 	vnow     int
 	regs     []*sreg
+	ghosts   []*sreg // registrations made on a closed scheduler
 	table    map[int]*sreg
 	stopped  bool
 	invalid  bool
@@ -123,10 +124,15 @@ func (r *schedRunner) Reset() {
 	r.s = chrono.NewScheduler(tickMs*time.Millisecond, 10)
 	r.t0 = time.Now()
 	r.vnow = 0
-	r.regs = nil
+	r.regs, r.ghosts = nil, nil
 	r.table = map[int]*sreg{}
 	r.stopped, r.invalid, r.cronMode = false, false, false
 }
+
+// wallNow is the wall clock without Go's monotonic reading: the timing wheel computes expirations
+// from time.Now().UTC() (wall clock), so "early" must be judged on the same clock — a wall-clock
+// step between registration and firing would otherwise look like an early or late timer.
+func wallNow() time.Time { return time.Now().Round(0) }
 
 func clampMs(d int) int {
 	if d < tickMs {
@@ -145,19 +151,75 @@ func (r *schedRunner) settle() {
 	if r.cronMode {
 		return
 	}
-	deadline := time.Now().Add(settleCap)
-	for _, g := range r.regs {
-		want := int64(g.expected(r.vnow))
-		for g.count.Load() < want && time.Now().Before(deadline) {
-			time.Sleep(300 * time.Microsecond)
+	missing := waitCounts(len(r.regs), func(i int) (int64, int64) {
+		return r.regs[i].count.Load(), int64(r.regs[i].expected(r.vnow))
+	})
+	if missing == starved {
+		r.invalid = true
+	}
+}
+
+const (
+	settled = iota
+	lost    // the cap expired on a responsive machine: a firing is missing (reported as it is)
+	starved // the cap expired, but this very loop was descheduled for long stretches: not determined
+)
+
+// pollUntil polls cond (every 0.3 ms) for at most `limit`; like waitCounts it tells a starved process
+// from a responsive one when the limit expires.
+func pollUntil(limit time.Duration, cond func() bool) int {
+	const starveGap = 250 * time.Millisecond
+	deadline := time.Now().Add(limit)
+	var worst time.Duration
+	for !cond() {
+		t := time.Now()
+		if t.After(deadline) {
+			if worst >= starveGap {
+				return starved
+			}
+			return lost
+		}
+		time.Sleep(300 * time.Microsecond)
+		if d := time.Since(t); d > worst {
+			worst = d
 		}
 	}
+	return settled
+}
+
+// waitCounts waits (event-driven, capped by settleCap) until have(i) >= want(i) for all i. It measures
+// its own scheduling latency while it polls: a sleep of 0.3 ms that takes more than starveGap means
+// the process is being starved, and then a missing firing proves nothing (late is never bad).
+func waitCounts(n int, get func(i int) (have, want int64)) int {
+	const starveGap = 250 * time.Millisecond
+	deadline := time.Now().Add(settleCap)
+	var worst time.Duration
+	for i := 0; i < n; i++ {
+		for {
+			have, want := get(i)
+			if have >= want {
+				break
+			}
+			t := time.Now()
+			if t.After(deadline) {
+				if worst >= starveGap {
+					return starved
+				}
+				return lost
+			}
+			time.Sleep(300 * time.Microsecond)
+			if d := time.Since(t); d > worst {
+				worst = d
+			}
+		}
+	}
+	return settled
 }
 
 // the next firing of every task that was live when the decision began must still be at least
 // `margin` away on the real clock
 func (r *schedRunner) clearOfNextFiring(live []*sreg, margin time.Duration) bool {
-	now := time.Now()
+	now := wallNow()
 	for _, g := range live {
 		k := g.expected(r.vnow)
 		if g.total > 0 && k >= g.total {
@@ -215,7 +277,7 @@ func (r *schedRunner) register(name, after, interval, total int, cron bool) stri
 	return r.decision(func() string {
 		r.alignCron()
 		out := proto.Safe(func() string {
-			g.rBase = time.Now()
+			g.rBase = wallNow()
 			sname := strconv.Itoa(name)
 			if cron {
 				if err := r.s.RegisterCronTask(sname, "* * * * * * *", g.fire); err != nil {
@@ -228,6 +290,11 @@ func (r *schedRunner) register(name, after, interval, total int, cron bool) stri
 			}
 			return "ok"
 		})
+		if r.stopped {
+			// a closed scheduler ignores the registration: no task object, and it must never fire
+			r.ghosts = append(r.ghosts, g)
+			return out
+		}
 		// shadow bookkeeping mirrors what the code does even when it panics half-way: the old task is
 		// closed first; the new one is inserted only if nothing panicked.
 		r.cancelShadow(r.table[name])
@@ -347,6 +414,12 @@ func (r *schedRunner) Step(t []string) string {
 				early = early || g.early.Load()
 			}
 			sb.WriteByte(']')
+			for _, g := range r.ghosts {
+				if g.count.Load() > 0 {
+					sb.WriteString(" fired-after-close")
+					return sb.String()
+				}
+			}
 			if early {
 				sb.WriteString(" early")
 				return sb.String()
@@ -477,8 +550,11 @@ func (s *gsim) apply(t []string) bool {
 	}
 	switch t[0] {
 	case "after", "repeat":
+		if s.stopped {
+			break
+		}
 		n := at(1)
-		g := &gtask{base: s.now, after: clampMs(at(2)), interval: tickMs, total: 1, cancel: -1, dead: s.stopped}
+		g := &gtask{base: s.now, after: clampMs(at(2)), interval: tickMs, total: 1, cancel: -1}
 		if t[0] == "repeat" {
 			g.interval, g.total = clampMs(at(3)), at(4)
 		}
@@ -610,8 +686,8 @@ func cronCases() [][]string {
 }
 
 func randomCase(rng *proto.RNG) []string {
-	afters := []int{70, 70, 170, 270, 0, 10}
-	intervals := []int{100, 100, 200, 300}
+	afters := []int{70, 70, 170, 270, 0, 10, 370, -20}
+	intervals := []int{100, 100, 200, 300, 400}
 	waits := []int{100, 100, 200, 300, 400}
 	for attempt := 0; attempt < 200; attempt++ {
 		n := rng.Range(4, 12)
@@ -621,14 +697,18 @@ func randomCase(rng *proto.RNG) []string {
 		closed := false
 		for i := 0; i < n && ok; i++ {
 			var op string
-			switch rng.Pick(4, 5, 3, 1, 1, 6, 4, 1) {
+			pick := rng.Pick(5, 8, 3, 1, 1, 4, 3, 1)
+			if i == 0 {
+				pick = rng.Intn(2) // a case starts with a registration
+			}
+			switch pick {
 			case 0:
-				op = fmt.Sprintf("after %d %d", rng.Intn(3), afters[rng.Intn(len(afters))])
+				op = fmt.Sprintf("after %d %d", rng.Intn(4), afters[rng.Intn(len(afters))])
 			case 1:
-				times := []int{2, 3, 4, -1, 0, 1, 6}[rng.Intn(7)]
-				op = fmt.Sprintf("repeat %d %d %d %d", rng.Intn(3), afters[rng.Intn(4)], intervals[rng.Intn(len(intervals))], times)
+				times := []int{2, 3, 4, -1, 0, 1, 6, 5, -3}[rng.Intn(9)]
+				op = fmt.Sprintf("repeat %d %d %d %d", rng.Intn(4), afters[rng.Intn(4)], intervals[rng.Intn(len(intervals))], times)
 			case 2:
-				op = fmt.Sprintf("unreg %d", rng.Intn(3))
+				op = fmt.Sprintf("unreg %d", rng.Intn(4))
 			case 3:
 				op = "clear"
 			case 4:
@@ -684,6 +764,9 @@ func randomCase(rng *proto.RNG) []string {
 }
 
 func schedGen(rng *proto.RNG, tier string, shard, nshards int, w *bufio.Writer) {
+	// the driver seeds shard k with seed*1000003+k, and SplitMix64 streams of consecutive seeds are
+	// the same stream shifted by one draw: re-seed from a mixed output so that shards are unrelated
+	rng = proto.NewRNG(rng.Next())
 	no := 0
 	budget := 60000 // virtual ms per shard (sweeps included)
 	if tier == "thorough" {
